@@ -230,7 +230,7 @@ def prog_C15(ctx):
 
 
 def prog_C08(ctx):
-    generic(ctx, ['Dc4bcVerif.Props.C08', 'Dc4bcVerif.Props.C20Node', 'Dc4bcVerif.Props.C13Clock', 'Dc4bcVerif.Props.SrcFacts'], 'nodediff', 'node', ['C08'], NODE_TRUSTED, NODE_RULE, cov_from_stats=node_cov)
+    generic(ctx, ['Dc4bcVerif.Props.C08', 'Dc4bcVerif.Props.C08Poll', 'Dc4bcVerif.Props.C20Node', 'Dc4bcVerif.Props.C13Clock', 'Dc4bcVerif.Props.SrcFacts'], 'nodediff', 'node', ['C08'], NODE_TRUSTED, NODE_RULE, cov_from_stats=node_cov)
 
 
 def monitor_only(ctx, driver, monitor_prefixes, cov_key, timeout=7200):
